@@ -1017,7 +1017,8 @@ func (e *Exec) assignIndex(field string) string {
 	return "[" + strings.Join(toks, " ") + "] ok"
 }
 
-var caseAlphabet = []string{"a", "Z", "m", "é", "É", "ß", "ÿ", "ǅ", "ǆ", "Ǆ", "İ", "ı", "\u212a", "ſ", "÷", "×", "à", "Þ", "0", " ", "aBc Ééßǅİ\u212a"}
+var caseAlphabet = []string{"a", "Z", "m", "é", "É", "ß", "ÿ", "ǅ", "ǆ", "Ǆ", "İ", "ı", "\u212a", "ſ", "÷", "×", "à", "Þ", "0", " ", "aBc Ééßǅİ\u212a",
+	"\x01", "a\"b", "b\\c", "<&>", "\u2028", "\x7f", "\U0001F600", "a\tb"}
 
 // tamperSchema edits schema.json as another tool would (numbers are kept textually).
 func (e *Exec) tamperSchema(f func(m map[string]interface{})) {
